@@ -4,7 +4,7 @@ MODULE = "DtailModel.Props.C07"
 # scripts with real waits: a disagreement counts only if it reproduces when re-run alone (flake policy, DESIGN 2.3)
 TIMED_OPS = ("c07.multi",)
 # translated packages (tie G) this property's theorems rest on
-GEN_UNITS = ("Handlers",)
+GEN_UNITS = ("Handlers", "Fs")
 GROUPS = ["C07", "C01"]
 BINS = True
 LOGGER = {"c07.multi": "none", "c07.sched": "stdout", "c07.pipe": "none", "c07.globid": "none", "c07.pause": "stdout"}
@@ -14,7 +14,7 @@ SCHED_BUDGET = {"quick": 160, "thorough": 4000}
 LEVEL_TEXT = ("Lean theorems: C07_interleave (for every number of connections and every interleaving of transport chunks each connection's "
               "printed messages are exactly those of its own byte stream, in order — nothing torn, merged or lost), C07_count_is_line_number "
               "(every delivered line, including lines flushed from the before-context ring, carries its true running number), "
-              "C07_record_roundtrip; tied to the code end to end: real dserver processes with distinct host names, the real dcat client over "
+              "C07_record_roundtrip; tie G: C07_generated_running_numbers — the plain filter with transmittable and the line counter, translated on every run, gives every sent line its position in the file as its number; tied to the code end to end: real dserver processes with distinct host names, the real dcat client over "
               "SSH, several files per server through a glob; every output line is parsed as one REMOTE record and each source's record "
               "sequence is compared with the model's; the file identifier: C07_globid_value, C07_globid_distinct (two paths of one cleaned glob with the same identifier are the same path; after fix 6338cfb) and tie G C07_generated_globid_refines_model (makeGlobID as translated from the working tree computes the model's identifier); further ops: c07.pipe (several real readers into one real server handler, every record checked against its line), c07.globid (non-canonical glob spellings through a real session), c07.pause (the stdout logger paused and resumed under load)")
 TRUSTED = ["Lean 4 kernel", "axioms: propext, Quot.sound, Classical.choice (at most)", "overlay harness (cluster of real dserver processes) + dtmodel driver + this diff",
